@@ -151,6 +151,19 @@ def run(chk, replay=None):
                 lines.append("(entry program %s)" % quote("fn main() { let x: %s = %s; }" % (ty, lit)))
                 lines.append("(entry witmod %s)" % quote("mod witness { const X: %s = %s; }" % (ty, lit)))
                 lines.append("(entry witjson %s)" % quote('{"X":{"value":"%s","type":"%s"}}' % (lit, ty)))
+    # type / value texts that parse but must be rejected (undefined alias, non-constant expression), and every text with blank
+    # lines / blank-looking lines after it (the error then spans a text that ends in an empty line)
+    tails = ["", "\n", "\n\n", "\r\n\r\n", " \n\n", "\n\t\n", "\n\n\n// c"]
+    for tt in ["Foo", "(u8, Foo)", "[Foo; 2]", "List<Foo, 4>", "Either<Foo, u8>", "Option<Bar>", "u8", "(u8, bool)", "Pubkey"]:
+        for tail in tails:
+            lines.append("(entry type %s)" % quote(tt + tail))
+            lines.append("(entry program %s)" % quote("fn main() { let x: %s = witness::X; }%s" % (tt, tail)))
+    for vt, tysx in [("{ 1 }", "(U 3)"), ("witness::A", "(U 3)"), ("f(1)", "(U 3)"), ("match true { true => 1, false => 2, }", "(U 3)"), ("x", "(U 3)"), ("param::P", "(U 3)"),
+                     ("jet::add_8(1, 2)", "(T B (U 3))"), ("1", "(U 3)"), ("(1, true)", "(T (U 3) B)"), ("Left({ 2 })", "(E (U 3) B)"), ("[1, x]", "(A (U 3) 2)"), ("list![y]", "(L (U 3) 2)")]:
+        for tail in tails:
+            lines.append("(entry value %s %s)" % (tysx, quote(vt + tail)))
+            lines.append("(entry witmod %s)" % quote("mod witness { const A: u8 = %s; }%s" % (vt, tail)))
+            lines.append("(entry witjson %s)" % quote('{"A":{"value":"%s","type":"u8"}}' % (vt + tail).replace("\n", "\\n").replace("\r", "\\r").replace("\t", "\\t")))
     # raw random strings
     alphabet = "abfnuxlet{}()[];:,=<>!0123456789_ \n\t\r" + "é"
     for _ in range(300 if quick else 5000):
